@@ -820,10 +820,14 @@ Fixpoint ostyle_get (k : option str) (m : ostyles) : option vis :=
     if same then Some v else ostyle_get k r
   end.
 
+(* read_named_expressions is called from parse_content (the document-global names) and, since
+   the fix ODS-2, from read_table (the names whose scope is that sheet): [ret] is where it
+   returns to.  Both callers `extend` defined_names with what it returns. *)
 Inductive omode : Type :=
 | OMain
 | OTable (name : str) (v : vis)        (* inside read_table *)
-| ONames (acc : list (str * str)).     (* inside read_named_expressions *)
+| ONames (acc : list (str * str)) (ret : option (str * vis)).
+                                       (* inside read_named_expressions; ret = the table being read *)
 
 Record ods_state : Type := mkOds {
   od_meta : list meta;
@@ -848,7 +852,7 @@ Fixpoint ods_run (evs : list event) (mode : omode) (st : ods_state) : outcome od
     match mode with
     | OMain => Ok st
     | OTable _ _ => Err E_XML_EOF      (* OdsError::Eof("table:table") *)
-    | ONames _ => Err E_MISMATCH
+    | ONames _ _ => Err E_MISMATCH
     end
   | ev :: r =>
     match mode with
@@ -859,18 +863,24 @@ Fixpoint ods_run (evs : list event) (mode : omode) (st : ods_state) : outcome od
           ods_run r OMain (mkOds (od_meta st ++ [mkMeta name v WorkSheet]) (od_names st)
                                  (od_styles st) (od_style_name st))
         else ods_run r mode st
+      | Start n _ =>
+        (* the names whose scope is this sheet (fix ODS-2).  The rows themselves are read by
+           read_row (property C04): what stands inside them is not looked at here *)
+        if str_eqb n o_nexprs then ods_run r (ONames [] (Some (name, v))) st
+        else ods_run r mode st
       | _ => ods_run r mode st
       end
-    | ONames acc =>
+    | ONames acc ret =>
       match ev with
       | Start n a =>
         if str_eqb n o_nrange || str_eqb n o_nexpr then
-          ods_run r (ONames (acc ++ [nexpr_attrs a [] []])) st
+          ods_run r (ONames (acc ++ [nexpr_attrs a [] []]) ret) st
         else Err E_MISMATCH
       | End n =>
         if str_eqb n o_nrange || str_eqb n o_nexpr then ods_run r mode st
         else if str_eqb n o_nexprs then
-          ods_run r OMain (mkOds (od_meta st) acc (od_styles st) (od_style_name st))
+          ods_run r (match ret with Some (name, v) => OTable name v | None => OMain end)
+                  (mkOds (od_meta st) (od_names st ++ acc) (od_styles st) (od_style_name st))
         else Err E_MISMATCH
       | Text _ | Other => ods_run r mode st      (* white space, comments (since the fix) *)
       | CData _ => Err E_MISMATCH
@@ -906,7 +916,7 @@ Fixpoint ods_run (evs : list event) (mode : omode) (st : ods_state) : outcome od
           | Some name => ods_run r (OTable name v) st
           | None => ods_run r OMain st
           end
-        else if str_eqb n o_nexprs then ods_run r (ONames []) st
+        else if str_eqb n o_nexprs then ods_run r (ONames [] None) st
         else ods_run r OMain st
       | _ => ods_run r OMain st
       end
@@ -1439,15 +1449,24 @@ Definition spec_names_xls (c : xls_choice) (wb : workbook xref) : list (str * st
 Definition ods_vis_ok (v : vis) : bool := match v with VeryHidden => false | _ => true end.
 Definition ods_kind_ok (k : kind) : bool := match k with WorkSheet => true | _ => false end.
 
+Record on_choice : Type := mkOn {
+  on_expr : bool;              (* table:named-expression / table:expression instead of named-range *)
+  on_swap : bool; on_pre : attrs; on_post : attrs
+}.
+(* a table:table element: its attributes, and its children — the columns, rows, shapes, forms …
+   (opaque here: property C04 reads the rows) before and after the table:named-expressions
+   element that holds the names whose scope is this sheet.  The schema puts that element last
+   (ODF 1.2 part 1, 9.1.2); LibreOffice writes it first, before the columns: both positions, and
+   any in between, are [os_content] / [os_after]. *)
 Record os_choice : Type := mkOs {
   os_style : option str;       (* table:style-name of the table, if any *)
   os_pre : attrs; os_post : attrs;
   os_swap : bool;              (* style-name before name *)
-  os_content : list event      (* the rows of the table (opaque here) *)
-}.
-Record on_choice : Type := mkOn {
-  on_expr : bool;              (* table:named-expression / table:expression instead of named-range *)
-  on_swap : bool; on_pre : attrs; on_post : attrs
+  os_content : list event;     (* the children before the sheet's named-expressions element *)
+  os_lnames : list on_choice;  (* how each sheet-scoped name is written *)
+  os_lnames_junk : list event; (* white space / comments inside that element *)
+  os_omit_lnames : bool;       (* no element when the sheet has no name of its own *)
+  os_after : list event        (* the children after it *)
 }.
 Record ods_choice : Type := mkOc {
   oc_styles : list (str * option bool);    (* automatic table styles: name, table:display *)
@@ -1466,30 +1485,49 @@ Definition style_events (s : str * option bool) : list event :=
                    end);
    End o_tprops; End o_style].
 
-Definition table_events (s : meta) (ch : os_choice) : list event :=
-  let a_st := match os_style ch with Some n => [(o_tstyle, n)] | None => [] end in
-  let a_nm := [(o_tname, m_name s)] in
-  [Start o_table (os_pre ch ++ (if os_swap ch then a_st ++ a_nm else a_nm ++ a_st) ++ os_post ch)]
-  ++ os_content ch ++ [End o_table].
-
 Definition nexpr_events (n : str * str) (ch : on_choice) : list event :=
   let el := if on_expr ch then o_nexpr else o_nrange in
   let a_n := [(o_tname, fst n)] in
   let a_v := [(if on_expr ch then o_expr else o_cra, snd n)] in
   [Start el (on_pre ch ++ (if on_swap ch then a_v ++ a_n else a_n ++ a_v) ++ on_post ch); End el].
 
-Definition ods_events (c : ods_choice) (wb : workbook str) : list event :=
+(* a table:named-expressions element (global, or inside a table) *)
+Definition nexprs_events (names : list (str * str)) (chs : list on_choice) (nj : list event)
+           (omit : bool) : list event :=
+  if omit && (match names with [] => true | _ => false end) then []
+  else [Start o_nexprs []] ++ nj
+       ++ flat_map (fun nc => nexpr_events (fst nc) (snd nc) ++ nj) (combine names chs)
+       ++ [End o_nexprs].
+
+(* S — the logical ods workbook: the sheets in order, each with the names whose scope it is, and
+   the names whose scope is the document *)
+Record ods_workbook : Type := mkOwb {
+  ow_sheets : list (meta * list (str * str));
+  ow_names : list (str * str)
+}.
+Definition ow_metas (wb : ods_workbook) : list meta := map fst (ow_sheets wb).
+(* what defined_names reports: EVERY name of the document, in document order — the names of each
+   sheet where its table stands, then the global ones (office:spreadsheet holds its
+   table:named-expressions after the tables: ODF 1.2 part 1, 3.7) *)
+Definition ow_all_names (wb : ods_workbook) : list (str * str) :=
+  flat_map snd (ow_sheets wb) ++ ow_names wb.
+
+Definition table_events (s : meta * list (str * str)) (ch : os_choice) : list event :=
+  let a_st := match os_style ch with Some n => [(o_tstyle, n)] | None => [] end in
+  let a_nm := [(o_tname, m_name (fst s))] in
+  [Start o_table (os_pre ch ++ (if os_swap ch then a_st ++ a_nm else a_nm ++ a_st) ++ os_post ch)]
+  ++ os_content ch
+  ++ nexprs_events (snd s) (os_lnames ch) (os_lnames_junk ch) (os_omit_lnames ch)
+  ++ os_after ch ++ [End o_table].
+
+Definition ods_events (c : ods_choice) (wb : ods_workbook) : list event :=
   let j := oc_junk c in
   [Other; Start o_doc []] ++ j ++ [Start o_autostyles []]
   ++ flat_map (fun s => j ++ style_events s) (oc_styles c)
   ++ j ++ [End o_autostyles; Start o_body []; Start o_spreadsheet []]
-  ++ flat_map (fun sc => j ++ table_events (fst sc) (snd sc)) (combine (wb_sheets wb) (oc_sheets c))
+  ++ flat_map (fun sc => j ++ table_events (fst sc) (snd sc)) (combine (ow_sheets wb) (oc_sheets c))
   ++ j
-  ++ (if oc_omit_names c && (match wb_names wb with [] => true | _ => false end) then []
-      else [Start o_nexprs []] ++ oc_names_junk c
-           ++ flat_map (fun nc => nexpr_events (fst nc) (snd nc) ++ oc_names_junk c)
-                       (combine (wb_names wb) (oc_names c))
-           ++ [End o_nexprs])
+  ++ nexprs_events (ow_names wb) (oc_names c) (oc_names_junk c) (oc_omit_names c)
   ++ j ++ [End o_spreadsheet; End o_body; End o_doc].
 
 (* visibility a style name resolves to, per ODF: the last definition of the name; no display
@@ -1508,10 +1546,24 @@ Definition junk_ok_ods (e : event) : bool :=
   | Start n _ => negb (str_eqb n o_tprops || str_eqb n o_table || str_eqb n o_nexprs)
   | _ => true
   end.
+(* the other children of a table (columns, rows, shapes …): the table's own end tag and a second
+   named-expressions element cannot stand among them (a sub-table inside a cell could bring both:
+   no spreadsheet producer writes sub-tables) *)
 Definition content_ok (e : event) : bool :=
-  match e with End n => negb (str_eqb n o_table) | _ => true end.
+  match e with
+  | End n => negb (str_eqb n o_table)
+  | Start n _ => negb (str_eqb n o_nexprs)
+  | _ => true
+  end.
+Definition on_legal (ch : on_choice) : bool :=
+  attr_free [o_tname; o_cra; o_expr] (on_pre ch) && attr_free [o_tname; o_cra; o_expr] (on_post ch).
 
-Definition os_legal (styles : list (str * option bool)) (s : meta) (ch : os_choice) : bool :=
+Definition names_junk_ok (e : event) : bool :=
+  match e with Text _ | Other => true | _ => false end.
+
+Definition os_legal (styles : list (str * option bool)) (sn : meta * list (str * str))
+           (ch : os_choice) : bool :=
+  let s := fst sn in
   ods_kind_ok (m_kind s) && ods_vis_ok (m_vis s)
   && (match os_style ch with
       | Some n => match m_vis s, style_vis styles n Visible with
@@ -1519,19 +1571,16 @@ Definition os_legal (styles : list (str * option bool)) (s : meta) (ch : os_choi
       | None => is_visible (m_vis s)
       end)
   && attr_free [o_tname; o_tstyle] (os_pre ch) && attr_free [o_tname; o_tstyle] (os_post ch)
-  && forallb content_ok (os_content ch).
-Definition on_legal (ch : on_choice) : bool :=
-  attr_free [o_tname; o_cra; o_expr] (on_pre ch) && attr_free [o_tname; o_cra; o_expr] (on_post ch).
+  && forallb content_ok (os_content ch)
+  && forallb2 (fun _ c => on_legal c) (snd sn) (os_lnames ch)
+  && forallb names_junk_ok (os_lnames_junk ch)
+  && forallb content_ok (os_after ch).
 
-Definition names_junk_ok (e : event) : bool :=
-  match e with Text _ | Other => true | _ => false end.
-
-Definition ods_legal (c : ods_choice) (wb : workbook str) : bool :=
+Definition ods_legal (c : ods_choice) (wb : ods_workbook) : bool :=
   forallb junk_ok_ods (oc_junk c)
-  && forallb2 (os_legal (oc_styles c)) (wb_sheets wb) (oc_sheets c)
-  && forallb2 (fun _ ch => on_legal ch) (wb_names wb) (oc_names c)
-  && forallb names_junk_ok (oc_names_junk c)
-  && negb (wb_1904 wb).
+  && forallb2 (os_legal (oc_styles c)) (ow_sheets wb) (oc_sheets c)
+  && forallb2 (fun _ ch => on_legal ch) (ow_names wb) (oc_names c)
+  && forallb names_junk_ok (oc_names_junk c).
 
 (* no known class is left for ods (events inside table:named-expressions: repaired) *)
 
